@@ -15,6 +15,9 @@ CHECKS = {
  "C09": ("runtime invariant assertion after every print_char (cursor inside visible window, fixed 40x24 grid), exhaustive <=3-token sequences + seeded streams, violations shrunk by delta debugging",
          "The geometry invariant is evaluated after every character of every stream. All <=2-token sequences over a ~230-token alphabet and (thorough) all 3-token sequences over the 70-token core alphabet x 5 sizes x {fresh, scrollback} are enumerated; byte pairs for the non-CSI emulations; random streams up to 4 KiB.",
          "Streams are not checked after their first ResizeTerminal action. Streams ending in a panic are C01's matter.", "DESIGN.md §4 C09"),
+ "C20": ("panic/abort monitor + per-command pixel work budget (cfg hook ticks) + virtual blocking monitor (hook before the sleep) + picture-size assertion after every command, enumerated command tables and seeded streams for RIPscrip and IGS",
+         "Every RIP level-0/1/9 command x parameter length 0..=24 x {0,1,Z} and every string over {0,1,Z} up to length 6, every IGS command x 0..=12 parameters x 7 value classes are enumerated; random mixed / truncated / over-long streams with state prefixes, loops and chains are sampled. Each command may spend at most 16x the canvas size in pixel operations; get_picture_data() must return width*height*4 bytes after every command; any sleep request raises.",
+         "RIP file commands run against an empty scratch directory. Known unimplemented feature (button label orientations, todo!()) is listed in known_findings.json.", "DESIGN.md §4 C20"),
  "C18": ("exhaustive enumeration of the codec domains against round-trip oracles (runtime assertion monitor)",
          "Complete enumeration of the finite domain stated in the property (256 bytes x 3 modes, all expressible attribute tuples, 256 CP437 + 128 ATASCII codes, 63 typed characters x 5 converters), each executed on the real codecs under the panic monitor; exhaustive, so the verdict covers every input of the quantifier.",
          "Trusts the harness's definition of 'expressible in a mode' (image of from_u8) and of the displayed foreground (bold folding).", "DESIGN.md §4 C18"),
